@@ -16,6 +16,11 @@ Prog_cancel == [main |-> <<O("new", 0), O("sched", 1), O("tick", 0), O("cancel",
 Prog_detach == [main |-> <<O("new", 0), O("sched", 1), O("detach", 1), O("del", 1), O("tick", 0), O("tick", 0),
                             O("stop", 0)>>]
 
+Prog_candel == [main |-> <<O("new", 0), O("sched", 1), O("cancel", 1), O("tick", 0), O("del", 1), O("stop", 0)>>]
+Cfg_det2    == [k \in {1} |-> C(1, 1, 2, TRUE, TRUE, 0)]
+Prog_det    == [main |-> <<O("new", 0), O("sched", 1), O("detach", 1), O("del", 1), O("tick", 0), O("tick", 0),
+                            O("stop", 0)>>]
+
 \* ---- pool with one worker: periodic task whose function returns false on its first call
 Cfg_false3  == [k \in {1} |-> C(0, 0, 3, FALSE, FALSE, 1)]
 Cfg_false3i == [k \in {1} |-> C(0, 0, 3, FALSE, TRUE, 1)]
